@@ -9,7 +9,8 @@
 From ClapModel Require Import Base.Bytes Base.Machine Base.Utf8 Lex.OsStrExtModel.
 From ClapModel Require Import Parse.Cmd Parse.Build Parse.Valid Parse.Matcher Parse.Errors Parse.Validator Parse.Parser.
 From ClapModel Require Import ParseProofs.Actions ParseProofs.ActionsLoop ParseProofs.Spelling ParseProofs.Sources
-                              ParseProofs.Unparse ParseProofs.UnparseProofs ParseProofs.UnparseTop ParseProofs.UnparseSub.
+                              ParseProofs.Unparse ParseProofs.UnparseProofs ParseProofs.UnparseTop ParseProofs.UnparseSub
+                              ParseProofs.UnparseTrail.
 From Coq Require Import ZArith Lia List Bool.
 From RecordUpdate Require Import RecordSet.
 Import RecordSetNotations.
@@ -18,14 +19,22 @@ Open Scope N_scope.
 
 Inductive inv :=
 | ILeaf (its : list item)
-| ISub (its : list item) (name : bytes) (j : inv).
+| ISub (its : list item) (name : bytes) (j : inv)
+| ITrail (its : list item) (vs : list bytes).          (* items, then [--] and the values after it *)
 
 Fixpoint render_inv (i : inv) : list bytes :=
   match i with
   | ILeaf its => render its
   | ISub its name j => render its ++ name :: render_inv j
+  | ITrail its vs => render its ++ ESC :: vs
   end.
-Definition inv_items (i : inv) : list item := match i with ILeaf its | ISub its _ _ => its end.
+Definition inv_items (i : inv) : list item := match i with ILeaf its | ISub its _ _ | ITrail its _ => its end.
+(** the occurrences of the root level of a tree *)
+Definition inv_occs (c : cmd) (i : inv) : list occ :=
+  match i with
+  | ILeaf its | ISub its _ _ => occs c 1 its
+  | ITrail its vs => occs c 1 its ++ trail_occs c (items_pos c 1 its) vs
+  end.
 
 (** the built subcommand a name token selects *)
 Definition child (c : cmd) (name : bytes) : option cmd :=
@@ -37,6 +46,7 @@ Definition child (c : cmd) (name : bytes) : option cmd :=
   end.
 
 Definition is_done (p : pstate_t) : bool := match p with PSValuesDone => true | _ => false end.
+Definition not_pos (p : pstate_t) : bool := match p with PSPos _ => false | _ => true end.
 
 (** the class, on the tree: every level conventional and without [ignore_errors]; the items of each
     level well formed; a subcommand name follows only a finished occurrence (an open option or a
@@ -55,6 +65,13 @@ Fixpoint wf_inv (c : cmd) (i : inv) : bool :=
       && match child c name with
          | Some scb => wf_inv scb j
          | None => false end
+  | ITrail its vs =>
+      (* [--] does not directly follow an open run of a multi-valued positional (it would continue it);
+         it is not a subcommand name; no [dont_delimit_trailing_values]; every value finds a positional *)
+      wf_items c PSValuesDone 1 its && not_pos (items_pst c PSValuesDone 1 its)
+      && (if is_done (items_pst c PSValuesDone 1 its) then nosub c ESC else true)
+      && negb (is_set s_dont_delimit_trailing c)
+      && wf_trail c (items_pos c 1 its) vs
   end.
 
 Fixpoint run_inv (c : cmd) (i : inv) : res ps :=
@@ -73,6 +90,8 @@ Fixpoint run_inv (c : cmd) (i : inv) : res ps :=
           end
       | None => RPanic 0
       end
+  | ITrail its vs =>
+      do st1 <- react_all c (occs c 1 its ++ trail_occs c (items_pos c 1 its) vs) ps_new; post_loop c st1
   end.
 
 Lemma possible_subcommand_vaf c tok vaf : is_set s_args_negate_subs c = false ->
@@ -100,9 +119,13 @@ Lemma wf_inv_parts c i : wf_inv c i = true ->
         (beq scn s_help && negb (is_set s_disable_help_sub c)) = false /\
         find_subcommand c scn = Some sc0 /\ build_subcommand c (c_name sc0) = Some scb /\
         child c name = Some scb /\ wf_inv scb j = true
+  | ITrail its vs =>
+      wf_items c PSValuesDone 1 its = true /\ not_pos (items_pst c PSValuesDone 1 its) = true /\
+      (items_pst c PSValuesDone 1 its = PSValuesDone -> nosub c ESC = true) /\
+      is_set s_dont_delimit_trailing c = false /\ wf_trail c (items_pos c 1 its) vs = true
   end.
 Proof.
-  intros H. destruct i as [its|its name j]; cbn [wf_inv] in H.
+  intros H. destruct i as [its|its name j|its vs]; cbn [wf_inv] in H.
   - apply andb_prop in H. destruct H as [H H3]. apply andb_prop in H. destruct H as [H1 H2].
     split; [exact H1|]. split; [destruct (is_set s_ignore_errors c); [discriminate|reflexivity]|exact H3].
   - apply andb_prop in H. destruct H as [H H3]. apply andb_prop in H. destruct H as [H1 H2].
@@ -116,6 +139,12 @@ Proof.
     destruct (build_subcommand c (c_name sc0)) as [scb|] eqn:Eb; [|discriminate].
     exists scn, sc0, scb. split; [reflexivity|]. split; [destruct (beq scn s_help && _); [discriminate|reflexivity]|].
     split; [exact Ef|]. split; [exact Eb|]. split; [reflexivity|exact H8].
+  - apply andb_prop in H. destruct H as [H H3]. apply andb_prop in H. destruct H as [H1 H2].
+    split; [exact H1|]. split; [destruct (is_set s_ignore_errors c); [discriminate|reflexivity]|].
+    apply andb_prop in H3. destruct H3 as [H3 H8]. apply andb_prop in H3. destruct H3 as [H3 H7].
+    apply andb_prop in H3. destruct H3 as [H3 H6]. apply andb_prop in H3. destruct H3 as [H4 H5].
+    split; [exact H4|]. split; [exact H5|]. split; [intros E; rewrite E in H6; exact H6|].
+    split; [destruct (is_set s_dont_delimit_trailing c); [discriminate|reflexivity]|exact H8].
 Qed.
 
 Lemma valid_tree_child f c scn sc0 scb : valid_tree (S f) c = true ->
@@ -131,7 +160,7 @@ Qed.
 Theorem gmw_inv : forall i c f, valid_tree (S f) c = true -> wf_inv c i = true ->
   get_matches_with (S f) c (render_inv i) ps_new = run_inv c i.
 Proof.
-  induction i as [its|its name j IH]; intros c f Hv Hw; destruct (wf_inv_parts c _ Hw) as [Hconv [Hie H]].
+  induction i as [its|its name j IH|its vs]; intros c f Hv Hw; destruct (wf_inv_parts c _ Hw) as [Hconv [Hie H]].
   - cbn [render_inv run_inv]. apply gmw_items; assumption.
   - destruct H as [Hwi [Hpst [Hneg [scn [sc0 [scb [Hps [Hh [Hfs [Hb [Hch Hwj]]]]]]]]]]].
     pose proof (valid_tree_child f c scn sc0 scb Hv Hfs Hb) as Hvc.
@@ -148,6 +177,33 @@ Proof.
     rewrite Ha. cbn [negb].
     rewrite (IH scb f' Hvc Hwj).
     destruct (run_inv scb j) as [sub_st|e s|n]; [reflexivity|rewrite !Hie; reflexivity|reflexivity].
+  - destruct H as [Hwi [Hnp [Hns [Hddt Hwt]]]].
+    cbn [render_inv run_inv]. rewrite get_matches_with_unfold. unfold cmdline_phase.
+    pose proof (pend_inv_none c PSValuesDone ps_new eq_refl) as Hi0.
+    rewrite (loop_items c Hconv its (ESC :: vs) PSValuesDone 1 false ps_new Hwi I Hi0 eq_refl).
+    rewrite rbind_assoc. rewrite react_all_app.
+    pose proof (flush_items c Hconv its PSValuesDone 1 ps_new Hwi) as F.
+    cbn [resolve_pending ps_new mt matcher_new mt_pending rbind] in F. change (mkPs matcher_new 0 None 0) with ps_new in F.
+    rewrite <- F. clear F.
+    destruct (apply_items c 1 its ps_new) as [st'|e s|n] eqn:Ea; cbn [rbind]; [|rewrite Hie; reflexivity|reflexivity].
+    pose proof (items_pst_ok c Hconv its PSValuesDone 1 Hwi I) as Hpo.
+    pose proof (apply_items_inv c Hconv its PSValuesDone 1 ps_new st' Hwi Hi0 Ea) as Hpi.
+    assert (Hpi' : pend_inv c PSValuesDone st').
+    { destruct (items_pst c PSValuesDone 1 its); [exact Hpi|exact Hpi|discriminate Hnp]. }
+    rewrite (loop_escape c Hconv vs _ _ _ st' Hpo).
+    2: { destruct (items_pst c PSValuesDone 1 its) eqn:Ep; try exact I. apply Hns. reflexivity. }
+    rewrite (loop_trail c Hconv vs _ _ _ _ Hwt (pend_inv_start_trailing c st' Hpi')).
+    rewrite rbind_assoc.
+    assert (FT : (do s' <- trail_apply c (items_pos c 1 its) vs (st' <| mt := start_trailing (mt st') |>);
+                  do s2 <- resolve_pending c s'; post_loop c s2) =
+                 (do st0 <- resolve_pending c st';
+                  do s2 <- react_all c (trail_occs c (items_pos c 1 its) vs) st0; post_loop c s2)).
+    { rewrite <- (resolve_start_trailing c Hddt st').
+      exact (flush_trail c Hconv Hddt vs (items_pos c 1 its) (st' <| mt := start_trailing (mt st') |>) (post_loop c) Hwt). }
+    destruct (trail_apply c (items_pos c 1 its) vs (st' <| mt := start_trailing (mt st') |>)) as [s'|e s|n]; cbn [rbind] in *.
+    + rewrite rbind_assoc. exact FT.
+    + rewrite rbind_assoc. rewrite <- FT. rewrite Hie. reflexivity.
+    + rewrite rbind_assoc. rewrite <- FT. reflexivity.
 Qed.
 
 (** in the successful case the level's own entries are the fold of [react] over its occurrences,
@@ -171,28 +227,39 @@ Proof.
   - split; [discriminate|intros [s2 [E _]]; discriminate].
 Qed.
 
+Lemma inv_occs_args c i : conv c = true -> Forall (fun o => In (o_arg o) (c_args c)) (inv_occs c i).
+Proof.
+  intros Hconv. destruct i as [its|its name j|its vs]; cbn [inv_occs]; try apply (occs_args c its 1).
+  apply Forall_app. split; [apply (occs_args c its 1)|apply trail_occs_args].
+Qed.
+
 (** conservation at the root level of a tree (by [gmw_inv] every level is the root of its subtree) *)
 Theorem conservation_inv : forall i c f st, valid_tree (S f) c = true -> wf_inv c i = true ->
   get_matches_with (S f) c (render_inv i) ps_new = ROk st ->
   forall a, In a (c_args c) ->
-    (forall gs, denote_arg c (a_id a) (inv_items i) = Some gs -> groups_of (a_id a) (mt st) = Some gs)
+    (forall gs, denote_os c (a_id a) (inv_occs c i) = Some gs -> groups_of (a_id a) (mt st) = Some gs)
     /\ (forall e, fm_get (a_id a) (mt_args (mt st)) = Some e -> m_source e = Some SCmdLine ->
-          denote_arg c (a_id a) (inv_items i) = Some (m_raw e)).
+          denote_os c (a_id a) (inv_occs c i) = Some (m_raw e)).
 Proof.
   intros i c f st Hv Hw H. rewrite (gmw_inv i c f Hv Hw) in H.
-  destruct (wf_inv_parts c _ Hw) as [Hconv [Hie Hp]]. destruct i as [its|its name j]; cbn [inv_items].
+  destruct (wf_inv_parts c _ Hw) as [Hconv [Hie Hp]]. pose proof (inv_occs_args c i Hconv) as Hos.
+  destruct i as [its|its name j|its vs]; cbn [inv_occs] in *.
   - cbn [run_inv] in H.
     destruct (react_all c (occs c 1 its) ps_new) as [st1|e s|n] eqn:E1; cbn [rbind] in H; try discriminate.
-    apply (conservation_core c Hconv its st1 st1 st E1 eq_refl); [|exact H].
+    apply (conservation_core_os c Hconv _ st1 st1 st Hos E1 eq_refl); [|exact H].
     apply (react_all_pending_keep c _ _ _ E1 eq_refl).
   - destruct Hp as [Hwi [_ [_ [scn [sc0 [scb [_ [_ [_ [_ [Hch _]]]]]]]]]]].
     destruct (run_inv scb j) as [sub_st|e s|n] eqn:Er.
     + apply (run_inv_sub_ok c its name j scb sub_st st Hconv Hwi Hch Er) in H. destruct H as [st1 [E1 H]].
-      apply (conservation_core c Hconv its st1 (ssub (Some (c_name scb, into_inner (mt sub_st))) st1) st E1); [| |exact H].
+      apply (conservation_core_os c Hconv _ st1 (ssub (Some (c_name scb, into_inner (mt sub_st))) st1) st Hos E1); [| |exact H].
       * rewrite ssub_mt, msub_args. reflexivity.
       * rewrite ssub_mt, msub_pending. apply (react_all_pending_keep c _ _ _ E1 eq_refl).
     + cbn [run_inv] in H. rewrite Hch, Er in H. destruct (apply_items c 1 its ps_new); discriminate.
     + cbn [run_inv] in H. rewrite Hch, Er in H. destruct (apply_items c 1 its ps_new); discriminate.
+  - cbn [run_inv] in H.
+    destruct (react_all c (occs c 1 its ++ trail_occs c (items_pos c 1 its) vs) ps_new) as [st1|e s|n] eqn:E1; cbn [rbind] in H; try discriminate.
+    apply (conservation_core_os c Hconv _ st1 st1 st Hos E1 eq_refl); [|exact H].
+    apply (react_all_pending_keep c _ _ _ E1 eq_refl).
 Qed.
 
 (** the subcommand chain is kept: the matches of a tree hold the child's matches under the child's name *)
